@@ -269,7 +269,9 @@ def step (_ : Unit) (line : String) : Unit × String :=
     match ints rest with
     | some [period, bn, nvals, mode, ts, prop] =>
       -- mode 3: the set in force (contract snapshot) has one member more than the set held in memory
-      let vals := if mode = 0 then [] else if mode = 3 then List.range (nvals.toNat + 1) else List.range nvals.toNat
+      -- modes 4, 5, 6: the validator record cannot be read / decoded while the block is checked: no validator set
+      if mode < 0 ∨ mode > 6 then "bad-op" else
+      let vals := if mode = 0 ∨ mode ≥ 4 then [] else if mode = 3 then List.range (nvals.toNat + 1) else List.range nvals.toNat
       verdictStr (xpoaAccept period bn vals ts (propId prop))
     | _ => "bad-op"
   | ["single", idok, prop, key, sig] =>
